@@ -566,7 +566,7 @@ func c10FloatBits(r *rand.Rand, n int) []uint64 {
 func init() {
 	run.Register(&run.Prop{
 		ID: "C10", Level: "exploration", MinNontrivial: 1000,
-		Rule:        "arith: (op, a, b, repA, repB) with a,b from the boundary set (0, ±1, ±2^k, ±2^k±1 for k<=130, Min/MaxInt64 and sqrt(2^63) neighbours, 10^k, random 1..40-digit integers) evaluated by gojq as `$a op $b` and compared with math/big; non-trivial = some operand or the exact result has magnitude >= 2^31. literal: (filter, literal text) pairs, every literal counts. passthrough: arrays of 2-8 literals (repeats, equal values spelled differently) through ~90 filters that only move, select, group or reorder elements (sort, unique, group_by, min/max, reverse, flatten, tostream/fromstream, ... also as `. as $x | sort | $x`), from the input, a variable and fromjson, and through the command (stdin, --argjson, --slurpfile): every number of the output carries the spelling of an input literal (same multiset for permuting filters) and the array handed in is unchanged. float: computed float bit patterns through Marshal/tojson/tostring and the command's encoder; non-trivial = fractional or >= 1e17.",
+		Rule:        "arith: (op, a, b, repA, repB) with a,b from the boundary set (0, ±1, ±2^k, ±2^k±1 for k<=130, Min/MaxInt64 and sqrt(2^63) neighbours, 10^k, random 1..40-digit integers) evaluated by gojq as `$a op $b` and compared with math/big; non-trivial = some operand or the exact result has magnitude >= 2^31. literal: (filter, literal text) pairs, every literal counts. passthrough: arrays of 2-8 literals (repeats, equal values spelled differently) through ~90 filters that only move, select, group or reorder elements (sort, unique, group_by, min/max, reverse, flatten, tostream/fromstream, ... also as `. as $x | sort | $x`), from the input, a variable and fromjson, and through the command (stdin, --argjson, --slurpfile): every number of the output carries the spelling of an input literal (same multiset for permuting filters) and the array handed in is unchanged. float: computed float bit patterns through Marshal/tojson/tostring and the command's encoder; non-trivial = fractional or >= 1e17. eqs: a 12-fold equality battery (contains, inside, index, unique, group_by, array difference, IN, bsearch, min == max) over the same operand pairs.",
 		Assumptions: []string{"math/big, strconv and encoding/json are correct", "operands reach gojq through WithVariables values (library API)"},
 		Body: func(c *run.Ctx) {
 			r := c.Rand("c10")
